@@ -20,30 +20,31 @@ type Clause struct {
 }
 
 type Contract struct {
-	Key          string // pkgpath + "." + relname
-	Pkg          string
-	Name         string
-	Params       []string
-	Results      []string
-	Requires     []Clause
-	Ensures      []Clause
-	Modifies     []string
-	LoopInv      map[int][]Clause
-	LoopMod      map[int][]string
-	Assumed      bool // contract is trusted, body not verified
-	MayPanic     bool
-	LockedAssume []Clause // assumed right after the function acquires its lock (trusted, listed)
-	CallersOnly  []string // the only functions allowed to call this one (call-graph obligation)
-	Reveal       []string // opaque spec definitions this function's proof may unfold
-	NoWrap       bool     // signed arithmetic: prove absence of overflow, then reason mathematically
-	NoSafety     bool     // do not generate the zero-annotation safety obligations for this function
-	Uncalled     bool     // the function must have no caller in the loaded program
-	GhostOnly    bool     // applied in addition to the built-in model of the callee (ghost effects only)
-	Pure         bool     // no heap effect at all (modifies nothing)
-	SameAs       string
-	Props        []string // properties this function's obligations count for
-	Where        string
-	Lets         [][2]string
+	Key           string // pkgpath + "." + relname
+	Pkg           string
+	Name          string
+	Params        []string
+	Results       []string
+	Requires      []Clause
+	Ensures       []Clause
+	Modifies      []string
+	LoopInv       map[int][]Clause
+	LoopMod       map[int][]string
+	Assumed       bool // contract is trusted, body not verified
+	MayPanic      bool
+	LockedAssume  []Clause // assumed right after the function acquires its lock (trusted, listed)
+	CallersOnly   []string // the only functions allowed to call this one (call-graph obligation)
+	Reveal        []string // opaque spec definitions this function's proof may unfold
+	NoWrap        bool     // signed arithmetic: prove absence of overflow, then reason mathematically
+	NoSafety      bool     // do not generate the zero-annotation safety obligations for this function
+	NoSafetyProps []string
+	Uncalled      bool // the function must have no caller in the loaded program
+	GhostOnly     bool // applied in addition to the built-in model of the callee (ghost effects only)
+	Pure          bool // no heap effect at all (modifies nothing)
+	SameAs        string
+	Props         []string // properties this function's obligations count for
+	Where         string
+	Lets          [][2]string
 }
 
 type GhostVar struct {
@@ -482,7 +483,9 @@ func (cs *Contracts) parseContractLines(lines []string, file string, pkgPath str
 		case "nowrap":
 			cur.NoWrap = true
 		case "nosafety":
+			// "nosafety" alone: for every property; "nosafety C18 C16": only when checking those
 			cur.NoSafety = true
+			cur.NoSafetyProps = append(cur.NoSafetyProps, strings.Fields(rest)...)
 		case "ghost_only":
 			cur.GhostOnly = true
 			cur.Assumed = true
